@@ -5,6 +5,7 @@ import Chihaya.Base.Decimal
 
 * driver registries (`middleware.New`, `storage.NewPeerStore`): lookup by name, unknown ⇒ error
 * `parseRedisURL`: on the result of `url.Parse` (scheme, path, host, userinfo supplied by the harness)
+* `NewFrontend` of the HTTP and UDP frontends: which configurations are refused, and what a refusal leaves bound
 -/
 namespace Config
 
@@ -42,5 +43,44 @@ def parseRedisURL (schemeIsRedis : Bool) (path : Bytes) : URLResult :=
       | some db => .ok db
       | none => .error
     | [] => .ok 0
+
+/-! ## `NewFrontend`: accepted configurations (frontend/http/frontend.go, frontend/udp/frontend.go) -/
+
+/-- how a listening address is given: not at all, a port nobody uses, a port that is taken -/
+inductive AddrKind where
+  | absent | free | busy
+  deriving DecidableEq, Repr
+
+/-- the TLS part of an HTTP frontend configuration: nothing; certificate and key that load; only one of the two
+paths; both paths but the files do not load -/
+inductive TlsKind where
+  | none | good | oneOfTwo | unloadable
+  deriving DecidableEq, Repr
+
+inductive FrontendResult where
+  | refused (httpListenerLeftBound : Bool)
+  | built
+  deriving DecidableEq, Repr
+
+/-- HTTP `NewFrontend`, in the order of its checks: an address, routes, the key pair (only consulted when both paths
+are given), "https needs TLS", "TLS needs https", then the listeners — HTTP first; when the HTTPS port cannot be
+bound the HTTP listener is closed again. No refusal leaves a listener bound. -/
+def httpNewFrontend (addr https : AddrKind) (tls : TlsKind) (routes : Bool) : FrontendResult :=
+  if addr = .absent ∧ https = .absent then .refused false
+  else if !routes then .refused false
+  else if tls = .unloadable then .refused false
+  else
+    let haveTls : Bool := decide (tls = .good)
+    if https ≠ .absent ∧ haveTls = false then .refused false
+    else if https = .absent ∧ haveTls = true then .refused false
+    else if addr = .busy then .refused false
+    else if https = .busy then .refused false     -- the HTTP listener, if any, has been closed
+    else .built
+
+/-- UDP `NewFrontend`: the socket is bound before the serving goroutine is started -/
+def udpNewFrontend (addr : AddrKind) : FrontendResult :=
+  match addr with
+  | .busy => .refused false
+  | _ => .built       -- an empty address is ":0" to `net.ResolveUDPAddr`: any port
 
 end Config
